@@ -181,6 +181,9 @@ def check(pid, tier):
         for u in spec["units"]:
             if u.get("asan"):
                 bins[u["pkg"] + "+asan"] = build(work, tree, u["pkg"], ("-asan",), "+asan")
+            if u.get("kind") == "fuzz" and u[tier] is not None and u["pkg"] + "+fuzz" not in bins:
+                # coverage instrumentation for the native fuzzing engine needs -fuzz at build time
+                bins[u["pkg"] + "+fuzz"] = build(work, tree, u["pkg"], ("-fuzz=FuzzVerif",), "+fuzz")
 
         # ---- known findings and regression corpus (seconds-long replay tier) ----
         active_known = []
@@ -227,10 +230,13 @@ def check(pid, tier):
 
         # ---- generated search ----
         jobs = []
+        only = os.environ.get("VERIF_ONLY_UNIT")  # development aid: run one unit of the check
         for ui, u in enumerate(spec["units"]):
             t = u[tier]
-            if t is None:
+            if t is None or (only and u["test"] != only):
                 continue
+            if os.environ.get("VERIF_FUZZTIME") and u.get("kind") == "fuzz":
+                t = dict(t, fuzztime=os.environ["VERIF_FUZZTIME"])
             shards = t.get("shards", NCPU)
             for s in range(shards):
                 jobs.append((ui, u, s, t))
@@ -241,7 +247,7 @@ def check(pid, tier):
             rd = os.path.join(work, "run", "%s-%d" % (u["test"], s))
             os.makedirs(os.path.join(rd, "fail"), exist_ok=True)
             seed = seed_for(base_seed, ui, s)
-            binp = bins[u["pkg"] + ("+asan" if u.get("asan") else "")]
+            binp = bins[u["pkg"] + ("+asan" if u.get("asan") else "+fuzz" if u.get("kind") == "fuzz" else "")]
             env = goenv({"VERIF_STATS": os.path.join(rd, "stats.json"), "VERIF_FAILDIR": os.path.join(rd, "fail"),
                          "VERIF_DBDIR": os.path.join(rd, "db"), "VERIF_TIER": tier, "VERIF_KNOWN": ",".join(active_known),
                          "VERIF_BIN": binp, "VERIF_SHARD": str(s), "VERIF_SEED_EFF": str(seed)})
@@ -355,7 +361,7 @@ def check(pid, tier):
 
         # ---- generator health ----
         for u in spec["units"]:
-            if u[tier] is None:
+            if u[tier] is None or (only and u["test"] != only):
                 continue
             a = agg.get(u["test"])
             if u.get("nostats"):
